@@ -282,11 +282,28 @@ def _summarise_loop(ctx, s: StepSummary, pre):
     for st in loop.body:
         if isinstance(st, ast.If):
             names = {n.id for n in ast.walk(st.test) if isinstance(n, ast.Name)}
-            if ivar in names and any(isinstance(n, ast.Mod) for n in ast.walk(st.test)):
+            stores_rows = any(isinstance(x, ast.Assign) and len(x.targets) == 1 and isinstance(x.targets[0], ast.Subscript) for x in ast.walk(st))
+            if ivar in names and any(isinstance(n, ast.Mod) for n in ast.walk(st.test)) and stores_rows:
                 store_ifs.append(st)
                 continue
-            if any(isinstance(x, ast.Call) and call_name(x) == "update" for x in ast.walk(st)) or _mentions_ddehistory(st.test, pre):
+            if any(_is_hist_update(x, pre) for x in ast.walk(st)) or _mentions_ddehistory(st.test, pre):
                 hist_ifs.append(st)
+                continue
+            # a conditional that only reports (print / logging / progress helper): its statements are bare calls that neither receive
+            # nor are methods of the state, the record, the history arguments or anything assigned in the loop
+            loop_names = {state, "args"} | {t.id for x in ast.walk(loop) for t in ([x.target] if isinstance(x, ast.AugAssign) else
+                                                                                 (x.targets if isinstance(x, ast.Assign) else []))
+                                            if isinstance(t, ast.Name)} \
+                | {x.targets[0].value.id for x in ast.walk(loop) if isinstance(x, ast.Assign) and len(x.targets) == 1
+                   and isinstance(x.targets[0], ast.Subscript) and isinstance(x.targets[0].value, ast.Name)}
+            own = {t.id for b in st.body for x in ast.walk(b) if isinstance(x, ast.Assign) for t in x.targets if isinstance(t, ast.Name)}
+            read_outside = {n.id for other in loop.body if other is not st for n in ast.walk(other) if isinstance(n, ast.Name)}
+            simple = all((isinstance(b, ast.Expr) and isinstance(b.value, ast.Call)) or
+                         (isinstance(b, ast.Assign) and all(isinstance(t, ast.Name) for t in b.targets)) for b in st.body)
+            inert = simple and not st.orelse and not (own & read_outside) and not any(
+                isinstance(n, ast.Name) and n.id in (loop_names - {ivar} - own) for b in st.body for n in ast.walk(b))
+            if inert:
+                s.store.setdefault("reporting_conditionals", []).append(norm(st))
                 continue
             raise AnalysisError(f"{f.qual}: unrecognised conditional in the step loop: {norm(st)}")
         if isinstance(st, ast.Assign) and len(st.targets) == 1 and isinstance(st.targets[0], ast.Name):
@@ -399,7 +416,7 @@ def _hist_loop(ctx, s, loop, hist_ifs, pre, ivar, state):
                 h["node"] = n
                 return
     for hi in hist_ifs:
-        upd = [x for x in ast.walk(hi) if isinstance(x, ast.Call) and call_name(x) == "update"]
+        upd = [x for x in ast.walk(hi) if _is_hist_update(x, pre)]
         if not upd:
             continue
         u = upd[0]
@@ -407,7 +424,7 @@ def _hist_loop(ctx, s, loop, hist_ifs, pre, ivar, state):
         h["node"] = u
         h["guard"] = norm(hi)
         h["guard_is_ddehistory_test"] = _mentions_ddehistory(hi.test, pre)
-        recv = u.func.value
+        recv = _bound_update(u.func, pre)
         h["receiver"] = ast.unparse(recv)
 
         def is_args0(e):
@@ -436,6 +453,23 @@ def _hist_loop(ctx, s, loop, hist_ifs, pre, ivar, state):
             h["state_untouched_between"] = not any(
                 isinstance(n, ast.Name) and n.id == state and isinstance(n.ctx, ast.Store) for b in between for n in ast.walk(b))
         return
+
+
+def _bound_update(e, pre):
+    """`X.update` possibly hoisted into a local (`upd = X.update if <test> else None`): returns the receiver X or None."""
+    if isinstance(e, ast.Attribute) and e.attr == "update":
+        return e.value
+    if isinstance(e, ast.Name) and e.id in pre:
+        v = pre[e.id]
+        if isinstance(v, ast.IfExp):
+            v = v.body if not (isinstance(v.body, ast.Constant) and v.body.value is None) else v.orelse
+        if isinstance(v, ast.Attribute) and v.attr == "update":
+            return v.value
+    return None
+
+
+def _is_hist_update(x, pre) -> bool:
+    return isinstance(x, ast.Call) and _bound_update(x.func, pre) is not None
 
 
 def _mentions_ddehistory(test: ast.AST, pre) -> bool:
@@ -497,6 +531,17 @@ def _summarise_scan(ctx, s: StepSummary, pre):
             v = v.args[0]
         if isinstance(v, ast.Constant) and v.value == 1 and not isinstance(v.value, bool):
             se.env[nm] = sp.Integer(1)
+    for nm, v in pre.items():
+        if nm in se.env or nm in f.params:
+            continue
+        names = {n.id for n in ast.walk(v) if isinstance(n, ast.Name)}
+        if not names or not names <= ({"dt"} | set(se.env)) or any(isinstance(n, (ast.Subscript, ast.Attribute, ast.IfExp, ast.Compare, ast.BoolOp, ast.Call))
+                                                                     for n in ast.walk(v)):
+            continue
+        try:
+            se.env[nm] = se.expr(v)
+        except AnalysisError:
+            continue
     se.env_naive = dict(se.env)
     ret = None
     for st in body[1:]:
